@@ -1,6 +1,8 @@
 SPECIFICATION Spec
 CONSTANTS CancelOnExit = TRUE
  FiredTimerCleared = TRUE
+ RestoreTimerFirst = TRUE
+ StartMode = "fresh"
  MaxNow = 3
  MaxLevel = 8
  MinStop = 0
